@@ -81,6 +81,22 @@ macro_rules! vcover {
 }
 pub(crate) use vcover;
 
+/// the property assertion: kani assert! with a literal message (each call site is its own CBMC check with
+/// its own description), `Src::check` natively
+#[cfg(kani)]
+macro_rules! vcheck {
+    ($s:expr, $c:expr, $msg:literal) => {
+        assert!($c, $msg)
+    };
+}
+#[cfg(not(kani))]
+macro_rules! vcheck {
+    ($s:expr, $c:expr, $msg:literal) => {
+        $s.check($c, $msg)
+    };
+}
+pub(crate) use vcheck;
+
 /// Native replay source: consumes the byte vectors of Kani's concrete playback in order.
 #[cfg(not(kani))]
 pub struct RSrc {
